@@ -224,7 +224,12 @@ namespace nmtools::utl
                 }
                 buffer_ = new_buffer;
             } else {
-                // not invalidating the value, for now
+                // within the capacity: the block is kept
+            }
+            // growth appends value-initialised elements (like std::vector): neither raw malloc
+            // memory nor the values dropped by an earlier shrink
+            for (size_type i=old_size; i<new_size; i++) {
+                buffer_[i] = T{};
             }
         }
 
